@@ -15,6 +15,12 @@ EXTENDS Mul, TLC, FiniteSets
 
 VARIABLES mKind, mS, mU, mA
 
+Bug == IF "VERIF_BUG" \in DOMAIN IOEnv THEN IOEnv.VERIF_BUG ELSE "none"      \* a deliberately wrong design, selected by the orchestrator for non-vacuity runs
+(* non-vacuity: a multiply-and-shift that truncates instead of rounding; a double multiply whose "vanishing term" shortcut multiplies G by *)
+(* the wrong scalar                                                                                                                        *)
+MulShiftUT(k, g) == IF Bug = "round_down" THEN (k * g) \div Pow2(T) ELSE MulShift(k, g)
+DsmUT(u, s, a) == IF Bug = "dsm_vanish" /\ (s = 0 \/ IsInf(a)) THEN ScalarBaseMultVartime(s) ELSE DoubleScalarMultAlg(u, s, a)
+
 FP   == 0..(P - 1)
 Aff  == TLCEval({<<x, y>> \in FP \X FP : (y * y) % P = (x * x * x + B) % P})
 Pts  == TLCEval(Aff \cup {Inf})
@@ -41,7 +47,7 @@ SplitInv == mKind = "mul" =>
   /\ (kk[1] + kk[2] * Lambda) % N = mS
   /\ n1[1] < Pow2(HBits) /\ n2[1] < Pow2(HBits)
   /\ n1[1] <= BoundK1 /\ n2[1] <= BoundK2
-  /\ MulShift(mS, G1) = Round(mS * G1, Pow2(T)) /\ MulShift(mS, G2) = Round(mS * G2, Pow2(T))
+  /\ MulShiftUT(mS, G1) = Round(mS * G1, Pow2(T)) /\ MulShiftUT(mS, G2) = Round(mS * G2, Pow2(T))
   /\ ScalarBaseMultCT(mS) = RefMul(mS, GenPt)
   /\ ScalarBaseMultVartime(mS) = RefMul(mS, GenPt)
   /\ PMulG(mS) = RefMul(mS, GenPt)                                    \* the D-level double-and-add agrees with repeated addition
@@ -61,7 +67,7 @@ MulInv == mKind = "mul-pt" =>
   /\ MultiScalarMultAlg(<<mS>>, <<mA>>) = RefMul(mS, mA)
 
 DsmInv == mKind = "dsm-pt" =>
-  DoubleScalarMultAlg(mU, mS, mA) = PAdd(RefMul(mU, GenPt), RefMul(mS, mA))
+  DsmUT(mU, mS, mA) = PAdd(RefMul(mU, GenPt), RefMul(mS, mA))
 
 Msm2Inv == mKind = "msm2-pt" =>
   /\ MultiScalarMultAlg(<<mS, mU>>, <<mA, GenPt>>) = PAdd(RefMul(mS, mA), RefMul(mU, GenPt))
